@@ -49,8 +49,17 @@ class CancellableAction(Future):
             raise InvalidStateError('Action has already been ran')
 
         try:
-            with kiwipy.capture_exceptions(self):
-                self.set_result(self._action(*args, **kwargs))
+            try:
+                result = self._action(*args, **kwargs)
+            except Exception as exception:
+                if self.done():
+                    # Cancelled while it was running, there is no one left to report to
+                    raise
+                self.set_exception(exception)
+            else:
+                if not self.done():
+                    # (if it was cancelled while it was running, i.e. superseded by another request, it stays cancelled)
+                    self.set_result(result)
         finally:
             self._action = None  # type: ignore
 
